@@ -80,11 +80,14 @@ pub fn main(args: &[String]) -> i32 {
 	let count: u64 = args[1].parse().unwrap();
 	let mut out = Out::new(&args[2]);
 	let scratch = std::path::PathBuf::from(&args[2]).join("scratch");
-	let mut rng = Rng::new(seed ^ 0xC20);
 	let mut oracle = String::new();
 	let mut dist: BTreeMap<String, u64> = BTreeMap::new();
 	let mut nontrivial = 0u64;
 	for case_no in 0..count {
+		let mut rng = crate::util::case_rng(seed ^ 0xC20, case_no);
+		if crate::util::skip_case(case_no) {
+			continue
+		}
 		let ncols = rng.range(1, 3) as usize;
 		let mut src: Vec<Flags> = Vec::new();
 		let mut dst: Vec<Flags> = Vec::new();
